@@ -57,6 +57,8 @@ def run(ctx):
     cells_key = None
     fallback = None
     for t in succ:
+        if is_variant(t, "Err"):
+            continue
         if is_variant(t, "Ok"):
             v = t[3][0]
             okw = const_int(v) == 0
